@@ -41,9 +41,32 @@ func (f *Fragment) Validate(root *Root) (errs []error) {
 	for _, du := range f.Directives() {
 		errs = append(errs, root.validateDirUse(f.Name, Locate(f), du)...)
 	}
+	if spreadsFragment(f.Sels, f, map[*Fragment]bool{}) {
+		errs = append(errs, valError(f.line, f.col, "fragment %s spreads itself", f.Name))
+	}
 	// Additional argument checks are performed during the resolve phase so no
 	// need to attempt to validate argument type matching and coerce success.
 	return
+}
+
+// spreadsFragment reports whether the selections spread the target fragment,
+// directly or through other fragments. Fragment spreads must not form cycles.
+func spreadsFragment(sels []Selection, target *Fragment, seen map[*Fragment]bool) bool {
+	for _, sel := range sels {
+		if fr, _ := sel.(*FragRef); fr != nil {
+			if fr.Fragment == target {
+				return true
+			}
+			if seen[fr.Fragment] {
+				continue
+			}
+			seen[fr.Fragment] = true
+		}
+		if spreadsFragment(sel.SelectionSet(), target, seen) {
+			return true
+		}
+	}
+	return false
 }
 
 func (f *Fragment) write(buf *bytes.Buffer) {
